@@ -139,10 +139,12 @@ def run_property(prop, tier, seed):
 def relock():
     from .. import PROPERTIES
     names = set()
+    reg, results = run_all(lambda c: True, "quick")      # every contract instance verified once
     for prop in PROPERTIES:
-        r = run_property(prop, "quick", 0)
-        if not r:
+        sub = [r for r in results if prop in reg[r["qualname"]].props]
+        if not sub:
             continue
+        r = merge(prop, reg, sub)
         for o in r["obligations"]:
             if o["status"] == "discharged":
                 names.add(o["name"])
